@@ -56,7 +56,7 @@ def mt_rows():
     return [(k, dm.MESSAGE_TYPE[k].command_field, uid[k]) for k in sorted(dm.MESSAGE_TYPE)]
 
 
-def observe(cls, data, pc, m, sizes, file_mode, rng, fill_seed, dst_value=None):
+def observe(cls, data, pc, m, sizes, file_mode, rng, fill_seed, dst_value=None, empty_last=False):
     """Fragment a message with the implementation, regroup, feed the real decoder."""
     from pynetdicom2 import fsm, pdu, dsutils, asceprovider, applicationentity
     from pydicom import uid as pyuid
@@ -76,6 +76,10 @@ def observe(cls, data, pc, m, sizes, file_mode, rng, fill_seed, dst_value=None):
             msg.command_set.CommandDataSetType = dst_value
     cmd, pdus = impl.send_and_collect(msg, pc, m)
     frags = [p.data_value_items[0] for p in pdus]
+    if empty_last and data and frags and frags[-1].data_value[:1] == b'\x02':
+        last = frags[-1]
+        frags[-1] = pdu.PresentationDataValueItem(last.context_id, b'\x00' + bytes(last.data_value[1:]))
+        frags.append(pdu.PresentationDataValueItem(last.context_id, b'\x02'))
     groups = []
     i = 0
     for s in sizes:
@@ -214,6 +218,25 @@ def main(tier, seed):
     tbad = common.parse_printed_list(tout, 'bad_table')
     failing, broken, n_obl, n_ok = common.run_sharded(run, 'Dec', IMPORTS, 'dcase', terms,
                                                       [('corr', 'dec_corr'), ('spec', 'dec_spec')], size=60)
+    # a peer of another toolkit that ends its data set with an empty last fragment: not the fragmentation of C06
+    # (the property's premise), so only model = implementation is demanded
+    from pynetdicom2 import dimsemessages as dm2
+    extra = []
+    for j, (m_, n_) in enumerate([(16384, 10), (64, 60), (64, 200), (90, 200)]):
+        data2 = sample_dataset(rng, n_)
+        nfr = sum(1 for _ in impl.send_and_collect(_msg_like(dm2.CStoreRQMessage, data2, 900 + j), 1, m_)[1]) + 1
+        for sizes in ([1] * nfr, [nfr], [nfr - 1, 1], [1, nfr - 1]):
+            if all(x > 0 for x in sizes):
+                for fm in (False, True):
+                    extra.append(observe(dm2.CStoreRQMessage, data2, 3, m_, sizes, fm, rng, 900 + j, None, True))
+    f2, b2, n2, k2 = common.run_sharded(run, 'EmptyLast', IMPORTS, 'dcase', [render(c, mt) for c in extra],
+                                        [('corr', 'dec_corr'), ('spec', 'dec_spec', 'stat')], size=60)
+    off = len(obs)
+    obs = obs + extra
+    failing = dict(corr=failing['corr'] + [off + i for i in f2['corr']], spec=failing['spec'])
+    broken += b2
+    n_obl += n2
+    n_ok += k2
     dec.obligations(n_obl + 1, n_ok + (1 if (tbad == [] and trc == 0) else 0))
     if tbad is None:
         broken.append(('Table', tout[-1500:]))
